@@ -28,6 +28,8 @@ variable {K : Type} [Field K] [LinearOrder K] [IsStrictOrderedRing K] (sq : K â†
 
 theorem fieldNum_ofRat (q : Rat) : @Num.ofRat K (fieldNum K sq) q = (q : K) := rfl
 
+theorem fieldNum_sqrt (x : K) : @Num.sqrt K (fieldNum K sq) x = sq x := rfl
+
 theorem fieldNum_lit (n : Int) (d : Nat) : @Model.lit K (fieldNum K sq) n d = ((mkRat n d : Rat) : K) := rfl
 
 theorem fieldNum_nmin (a b : K) : @Model.nmin K (fieldNum K sq) a b = min a b := by
